@@ -125,6 +125,8 @@ def run(prop: str, case: Dict[str, Any]) -> Dict[str, Any]:
     torch.set_num_threads(1)
     ctx = kernel.Ctx(prop, case)
     loc = {"algo": case["algo"], "mode": case["mode"]}
+    ctx.log("world", "config", {k: case.get(k) for k in ("algo", "mode", "T", "E", "obs_kind", "act_kind", "gamma", "gae_lambda", "done_pattern", "groups", "batch_size",
+                                                          "chunks", "max_len", "ending", "len_seed", "seed")})
     try:
         if case["algo"] == "PPO" and case["mode"] == "loop":
             _run_ppo_loop(ctx, case, loc)
